@@ -53,17 +53,21 @@ def r_driver(root):
         imported.own.update({"_tx_filename": "imp.file", "_tx_metamodel": mm, "_tx_parser": parser2}); finished.own.update({"_tx_filename": "done.file", "_tx_metamodel": mm, "_tx_parser": parser2})
         def mkref(start): return HS({".kind": "refpos", ".ref_pos_start": start})
         def delayed(name, pos): return ("obj", "attr", HS({".kind": "crossref", ".obj_name": name, ".position": pos, ".cls": {".__name__": "Target"}}))
-        def resolver(tag, script, parser_, lst):
-            r = HS({".kind": "resolver", ".tag": tag, ".parser": parser_, ".pos_crossref_list": lst, ".delayed_crossrefs": []}); state = {"i": 0}
+        def resolver(tag, script, parser_, lst, model_=None):
+            # an instance of the real ReferenceResolver class (constructor interpreted) whose resolve_one_step is scripted
+            try: r = pyeval.instantiate("ReferenceResolver", [parser_, model_, lst], {}, {"__classdefs__": cds, "__functions__": fns, "__module__": t})
+            except (pyeval.Raised, pyeval.Unsupported) as x_: raise AnalysisError("ReferenceResolver(parser, model, list): %s" % x_)
+            if r.get(".pos_crossref_list") is not lst: r[".pos_crossref_list_given"] = lst
+            r[".tag"] = tag; r.setdefault(".delayed_crossrefs", []); state = {"i": 0}
             def step():
                 i = state["i"]; state["i"] += 1
                 n, delayed_, starts = script[min(i, len(script) - 1)]
                 ev.append(("round", tag, i)); r[".delayed_crossrefs"] = list(delayed_)
-                for s_ in starts: lst.append(mkref(s_))
+                for s_ in starts: r[".pos_crossref_list"].append(mkref(s_))
                 return n, list(delayed_)
             r[".resolve_one_step"] = pyeval.PyFn(step); return r
         stuck = [(0, [delayed("ghost", 33)], [])]
-        imported.own["_tx_reference_resolver"] = resolver("imported", stuck if unresolvable else [(0, [delayed("later", 5)], []), (1, [], [70])], parser2, [])
+        imp_res = imported.own["_tx_reference_resolver"] = resolver("imported", stuck if unresolvable else [(0, [delayed("later", 5)], [70]), (1, [], [20])], parser2, [], imported)
         loaderA = HS({".kind": "provider", ".is_loader": True}); loaderB = HS({".kind": "provider", ".is_loader": True}); plain = HS({".kind": "provider", ".is_loader": False})
         def load(tag):
             def f(m, encoding=None, **k):
@@ -77,12 +81,12 @@ def r_driver(root):
         def process_node(tree):
             ev.append(("process_node", tree))
             parser["._crossrefs"].extend([("o", "a", HS({".kind": "crossref", ".scope_provider": loaderB})), ("o", "b", HS({".kind": "crossref", ".scope_provider": None})), ("o", "c", HS({".kind": "crossref", ".scope_provider": plain}))])
-            if "pos_rule_dict" in env: env["pos_rule_dict"].update({(0, 100): "root", (5, 20): "a", (5, 9): "a-inner", (30, 40): "b"})
+            if "pos_rule_dict" in env: env["pos_rule_dict"].update({(0, 100): "root", (5, 20): "a", (5, 9): "a-inner", (30, 40): "b", (30, 35): "b-inner", (5, 10): "a-mid"})
             return model
         created = []
         def new_resolver(parser_, model_, lst):
             ev.append(("resolver", parser_ is parser, model_ is model)); created.append(lst)
-            return resolver("main", stuck if unresolvable else [(1, [delayed("d1", 8)], [50]), (1, [], [10])], parser_, lst)
+            return resolver("main", stuck if unresolvable else [(1, [delayed("d1", 8)], [50]), (1, [], [10])], parser_, lst, model_)
         def call_proc(mm_, m, *a):
             ev.append(("processors", m, mm_ is mm))
             if proc_fails and m is model:
@@ -104,7 +108,7 @@ def r_driver(root):
         try: k, v = "ret", pyeval.run_block(body, env, max_steps=5000)
         except pyeval.Raised as r_: k, v = "raise", r_
         except pyeval.Unsupported as u_: raise AnalysisError("parse_tree_to_objgraph: outside the evaluated subset: %s" % u_)
-        return dict(k=k, v=v, ev=ev, model=model, imported=imported, finished=finished, mm=mm, parser=parser, created=created)
+        return dict(k=k, v=v, ev=ev, model=model, imported=imported, finished=finished, mm=mm, parser=parser, created=created, imported_list=imp_res[".pos_crossref_list"])
     W = "parse_tree_to_objgraph"
     def rep(prop, clause, what, ok, msg):
         nonlocal inst
@@ -131,8 +135,8 @@ def r_driver(root):
         rep("C06", "C06.g", "the model knows the file it was loaded from", model.own.get("_tx_filename") == "m.file" and model.own.get("_tx_metamodel") is A["mm"] and model.own.get("_tx_parser") is A["parser"] and "_tx_reference_resolver" not in model.own and "_tx_reference_resolver" not in imported.own,
             "after the load the model has _tx_filename=%r, its meta-model: %s, its parser: %s, still marked under construction: %s; documented: the file name given by the caller, the meta-model and parser of the load, no construction mark" % (model.own.get("_tx_filename"), model.own.get("_tx_metamodel") is A["mm"], model.own.get("_tx_parser") is A["parser"], "_tx_reference_resolver" in model.own))
         lst = model.own.get("_pos_crossref_list"); prd = model.own.get("_pos_rule_dict")
-        rep("C34", "C34.j", "the published reference list is the resolver's own list, sorted; the span map is ordered innermost-first", bool(A["created"]) and lst is A["created"][0] and [r[".ref_pos_start"] for r in lst] == [10, 50] and isinstance(prd, dict) and list(prd) == [(30, 40), (5, 9), (5, 20), (0, 100)],
-            "with tool support the model publishes %s with starts %s and the span map in the order %s; documented: the very list handed to its resolver (filled while resolving, also in later rounds), sorted by reference start [10, 50], and the spans ordered by start descending, end ascending" % ("the resolver's list" if A["created"] and lst is A["created"][0] else "another list object" if isinstance(lst, list) else repr(lst), [r[".ref_pos_start"] for r in lst] if isinstance(lst, list) else None, list(prd) if isinstance(prd, dict) else prd))
+        rep("C34", "C34.j", "the published reference list is the resolver's own list, sorted; the span map is ordered innermost-first", bool(A["created"]) and lst is A["created"][0] and [r[".ref_pos_start"] for r in lst] == [10, 50] and [r[".ref_pos_start"] for r in A["imported_list"]] == [20, 70] and isinstance(prd, dict) and list(prd) == [(30, 35), (30, 40), (5, 9), (5, 10), (5, 20), (0, 100)],
+            "with tool support the model publishes %s with starts %s (the included model's list: %s) and the span map in the order %s; documented: the very list handed to its resolver (filled while resolving, also in later rounds), sorted by reference start [10, 50] - as the list of every model resolved in this load ([20, 70]) -, and the spans ordered by start descending, end ascending" % ("the resolver's list" if A["created"] and lst is A["created"][0] else "another list object" if isinstance(lst, list) else repr(lst), [r[".ref_pos_start"] for r in lst] if isinstance(lst, list) else None, [r[".ref_pos_start"] for r in A["imported_list"]], list(prd) if isinstance(prd, dict) else prd))
         il = imported.own.get("_tx_reference_resolver")
     # ---- B: a model loaded from a string
     B = scenario(file_name=None)
